@@ -25,8 +25,9 @@ class AbstractNorm:
         if axis is not None and x.ndim > 1:
             raise symx.HarnessError('abstract norm with axis on a matrix')
         comps = [SR.lift(e) for e in x.reshape(-1)]
-        key = tuple((e.n.get_id(), None if e.d is None else e.d.get_id()) for e in comps)
-        nkey = tuple(((-e).n.get_id(), None if e.d is None else e.d.get_id()) for e in comps)
+        negs = [-e for e in comps]
+        key = tuple(core._ids(c, e.n, e.d) for e in comps)
+        nkey = tuple(core._ids(c, e.n, e.d) for e in negs)
         memo = c.__dict__.setdefault('norm_memo', {})
         if key in memo:
             return memo[key]
